@@ -302,7 +302,8 @@ def run(tier: str, rd):
     vd = Verdicts(PROP)
     rng = random.Random(seed())
     # ---- G
-    runs = [("EscAlpha", "QuotePrefix", 4 if tier == "quick" else 6, True)]
+    runs = [("EscAlpha", "QuotePrefix", 4 if tier == "quick" else 6, True),
+            ("BlkAlpha", "BlockPrefix", 4 if tier == "quick" else 5, True)]      # every way of ending the source inside a block string
     for a in ("NumAlpha", "StrAlpha", "LayAlpha"):
         runs.append((a, "NoPrefix", 3 if tier == "quick" else 4, False))
     n_req = 0
